@@ -484,20 +484,25 @@ namespace Pistache::Http
             message->body_.reserve(size);
             StreamCursor::Token chunkData(cursor);
             const ssize_t available = cursor.remaining();
+            // chunk data still missing (the CRLF after it is handled below)
+            const ssize_t needed = size - alreadyAppendedChunkBytes;
 
-            if (available + alreadyAppendedChunkBytes < size + 2)
+            if (available < needed)
             {
                 cursor.advance(available);
                 message->body_.append(chunkData.rawText(), available);
                 alreadyAppendedChunkBytes += available;
                 return Incomplete;
             }
-            cursor.advance(size - alreadyAppendedChunkBytes);
+
+            cursor.advance(needed);
+            message->body_.append(chunkData.rawText(), needed);
+            alreadyAppendedChunkBytes = size;
 
             // trailing EOL
+            if (cursor.remaining() < 2)
+                return Incomplete;
             cursor.advance(2);
-
-            message->body_.append(chunkData.rawText(), size - alreadyAppendedChunkBytes);
 
             return Complete;
         }
